@@ -9,12 +9,15 @@ def unit(name, kind, tracked=0, entries=None):
         budget={'quick': 280, 'thorough': 2600},
         validate=['history'],
     )
-UNITS = [unit('hashmap', 1), unit('hashset', 2), unit('poolmap', 3)]
+UNITS = [unit('hashmap', 1), unit('hashset', 2), unit('poolmap', 3),
+         dict(name='strhash', harness='harness/c02_strhash.cpp', sources=['repo:src/Memory.cpp', 'repo:src/String.cpp'],
+              defines={'quick': {'VF_SL': 2}, 'thorough': {'VF_SL': 3}}, entries=['strhash'], opts={'all': {'unwind': 64, 'timeout_ms': 5000}},
+              split={'quick': 8, 'thorough': 16}, budget={'quick': 280, 'thorough': 2600}, validate=['strhash'])]
 BOUNDS = {
     'quick': 'two tables with capacities in {1,2} (plus 0->1, 7, 500 in the capacities entry); histories of <= 2 operations after a pre-fill of <= 1, one operation from pre-fills of 0..2/0..1 distinct entries (thorough: 0..3/0..2); keys 32-bit symbolic, each distinct key value gets every hash residue modulo lcm(capacities) (every bucket layout incl. all-colliding); values 32-bit symbolic',
     'thorough': 'histories of <= 3 operations, one operation from pre-fills of 0..3/0..2 distinct entries',
 }
-OUTSIDE = 'tables with more than ~6 entries, HashSet<String> with the real string hash (covered for short strings by unit strhash), allocation failure'
+OUTSIDE = 'tables with more than ~6 entries, strings longer than 2-3 bytes through the real string hash (unit strhash covers short symbolic strings in 2- and 4-bucket tables (power-of-two capacities: the multiplicative string hash modulo 3 is beyond both solver back ends)), allocation failure'
 ASSUMPTIONS = ['clang++-14 -O1 IR of include/nstd/HashMap.hpp, HashSet.hpp, PoolMap.hpp instantiated with Key{int v; usize h} and int values',
                'hash(Key) returns a per-key residue chosen over all values modulo lcm(capacities); equal keys are constrained to equal hashes, nothing else', 'operator new[] never fails',
                'library ASSERT()s enabled (no NDEBUG)']
